@@ -551,6 +551,52 @@ fn run_soundness(cx: &mut CaseCx, case: &Value) {
       }
     }
   }
+  // TWO components replaced at the same time (a verifier that "also tries" another arrangement of its
+  // arguments accepts an exchange that no single replacement shows): every pair of named replacements of the
+  // request point, the output point, c and s - among them request and output exchanged, c and s exchanged.
+  // (Pairs inside the public key are left out: the verifier may legitimately use only the sum of its two entries.)
+  {
+    let named: Vec<(&'static str, Vec<(&'static str, [u8; 32])>)> = vec![
+      ("input point", vec![("output point", h.output), ("another honest request", h_other_input.blinded), ("that request's output", h_other_input.output), ("identity", ident)]),
+      ("output point", vec![("input point", h.blinded), ("of another input", h_other_input.output), ("another honest request", h_other_input.blinded), ("of another tag", h_other_tag.output), ("identity", ident)]),
+      ("challenge c", vec![("response s", s_bytes), ("of another proof", h_other_input.proof[..32].try_into().unwrap()), ("zero", [0u8; 32])]),
+      ("response s", vec![("challenge c", c_bytes), ("of another proof", h_other_input.proof[32..64].try_into().unwrap()), ("zero", [0u8; 32])]),
+    ];
+    for a in 0..named.len() {
+      for b in (a + 1)..named.len() {
+        for (ha, va) in &named[a].1 {
+          for (hb, vb) in &named[b].1 {
+            let (mut inp, mut out, mut proof) = (h.blinded, h.output, h.proof.clone());
+            for (comp, val) in [(named[a].0, va), (named[b].0, vb)] {
+              match comp {
+                "input point" => inp = *val,
+                "output point" => out = *val,
+                "challenge c" => proof[..32].copy_from_slice(val),
+                _ => proof[32..64].copy_from_slice(val),
+              }
+            }
+            if (inp, out, &proof) == (h.blinded, h.output, &h.proof) {
+              continue; // the replacement values coincide with the originals (neutral request point)
+            }
+            let ev = match ev_of(&out, &proof) {
+              Some(e) => e,
+              None => {
+                cx.count("rejected_at_load", 1);
+                continue;
+              }
+            };
+            cx.eval();
+            cx.nontrivial(fnv_str(&format!("{}|pair|{}|{}|{}|{}", md, named[a].0, ha, named[b].0, hb)));
+            match guard(|| pp::Client::verify(&w.pk, &pt(&inp), &ev, md)) {
+              Ok(false) => cx.count("pair_tampering_rejected", 1),
+              Ok(true) => cx.viol("C13/sound/pair-substitution-accepted", format!("Client::verify accepted an evaluation in which TWO components were replaced at once: {} <- {}, {} <- {}", named[a].0, ha, named[b].0, hb), json!({"tag": md, "first": named[a].0, "first_replacement": ha, "second": named[b].0, "second_replacement": hb})),
+              Err(p) => cx.viol("C13/verify-panicked", format!("Client::verify panicked on a doubly tampered evaluation: {}", p), json!({"tag": md})),
+            }
+          }
+        }
+      }
+    }
+  }
   // the proof removed altogether: an evaluation without a proof proves nothing
   {
     cx.eval();
@@ -870,7 +916,7 @@ pub fn spec() -> PropSpec {
       },
       Check {
         name: "soundness-matrix",
-        rule: "per tag (honest client request; also honest evaluations of the neutral element and of the base point as request): components {pk base point, pk tag point, input point, output point, c, s} x replacements {same component from another server / tag / request, neighbour (+G, +1, negation), identity / zero, a different component of the same evaluation, EVERY single-bit flip of the 32-byte encoding} plus tag-argument and whole-key substitutions: verify must be false in every cell; every tampered verification is preceded (and followed) by an honest one on the same thread, which must stay true",
+        rule: "per tag (honest client request; also honest evaluations of the neutral element and of the base point as request): components {pk base point, pk tag point, input point, output point, c, s} x replacements {same component from another server / tag / request, neighbour (+G, +1, negation), identity / zero, a different component of the same evaluation, EVERY single-bit flip of the 32-byte encoding} plus tag-argument and whole-key substitutions: verify must be false in every cell; every tampered verification is preceded (and followed) by an honest one on the same thread, which must stay true; plus every PAIR of named replacements among request point, output point, c and s applied at once (request and output exchanged, c and s exchanged, request and output of another honest exchange under this proof, ...)",
         gen: |_| {
           let mut v: Vec<Value> = TAGS.iter().map(|&t| json!({"md": t})).collect();
           // the same matrix on honest evaluations of special request points
@@ -879,7 +925,7 @@ pub fn spec() -> PropSpec {
           v
         },
         run: run_soundness,
-        min_counts: &[("tampering_rejected", 2000), ("rejected_at_load", 10)],
+        min_counts: &[("tampering_rejected", 2000), ("rejected_at_load", 10), ("pair_tampering_rejected", 300)],
       },
       Check {
         name: "forged-proofs",
